@@ -605,7 +605,23 @@ def r7_plumbing(ctx, m, me) -> None:
                     good = True
             ok = ok and good
         ok = ok and any(p.kind == "return" and p.value_text() in ("False",) or p.kind == "return" and p.value_text().startswith(("any(", "not all(")) for p in ps)
-    ctx.check(ok, "C12.R7", "_needs_order_key: excludes exactly Input/Output endpoints", m.path, nk.lineno if nk else 1, "", nk)
+        # "no key needed" is answered only after both enumerations were examined (no shortcut on the node's own operation: calls, loads
+        # and containers carry order edges although they are no DataflowOp)
+        why_short = ""
+        for p in ps:
+            if p.kind == "return" and p.value_text() in ("False", "None", "0"):
+                for links, boundary in (("outgoing_order_links", "Output"), ("incoming_order_links", "Input")):
+                    it = f"{h_}.{links}({n_})"
+                    allform = f"all((isinstance({h_}[c0].op, {boundary}) for c0 in {it}))"
+                    anyform = f"any((not isinstance({h_}[c0].op, {boundary}) for c0 in {it}))"
+                    looped = any(isinstance(e, ast.For) and u(e.iter) == it for e in p.effects)
+                    asked = p.has_test(allform, True) is not None or p.has_test(anyform, False) is not None
+                    if not (looped or asked):
+                        ok = False
+                        why_short = f"a path answers False without looking at {links}: {p.describe()[:160]}"
+    ctx.check(ok, "C12.R7", "_needs_order_key: excludes exactly Input/Output endpoints", m.path, nk.lineno if nk else 1,
+              "a node needs an order key iff it has an order link to something other than the Input / Output node of its region"
+              + (f" [{why_short}]" if ok is False and nk is not None and 'why_short' in dir() and why_short else ""), nk)
 
 
 def r8_ext_arms(ctx, m, me) -> None:
